@@ -86,6 +86,18 @@ class ScriptedBackend(object):
         raise NotImplementedError
 
 
+def post(s, vs, S):
+    """Post the table of S; for every second solution-set size also vacuously true constraints whose trees contain
+    operand-less n-ary nodes after a sibling (empty folds at a board edge look like this): they must change nothing."""
+    from cspuz.expr import BoolExpr, BoolVar, Op
+
+    s.ensure(table_expr(vs, S))
+    if len(S) % 2 == 1:
+        lit = vs[0] if isinstance(vs[0], BoolVar) else BoolExpr(Op.EQ, [vs[0], vs[0]])
+        s.ensure(BoolExpr(Op.NOT, [BoolExpr(Op.AND, [lit, BoolExpr(Op.OR, [])])]))
+        s.ensure(BoolExpr(Op.OR, [BoolExpr(Op.NOT, [lit]), lit, BoolExpr(Op.AND, [])]))
+
+
 def register_keys(s, vs, keymask, form):
     """Every way of handing variables to add_answer_key()."""
     keys = [v for v, k in zip(vs, keymask) if k]
@@ -152,7 +164,7 @@ def run_scripted(part, typing, S, keymask):
 
     def one(t):
         s, vs = make_solver(typing)
-        s.ensure(table_expr(vs, S))
+        post(s, vs, S)
         register_keys(s, vs, keymask, (len(S) + sum(keymask)) % 7)
         if list(s.is_answer_key) != list(keymask):
             return ("raises", "KeysNotRegistered", "is_answer_key=%r after registering %r" % (s.is_answer_key, keymask)), vs
@@ -190,7 +202,7 @@ def run_scripted(part, typing, S, keymask):
 def run_z3(part, typing, S, keymask):
     case = {"route": "z3", "typing": list(typing), "S": [list(s) for s in S], "keys": list(keymask)}
     s, vs = make_solver(typing)
-    s.ensure(table_expr(vs, S))
+    post(s, vs, S)
     for v, k in zip(vs, keymask):
         if k:
             s.add_answer_key(v)
@@ -266,7 +278,7 @@ def run_wire(part, wire, backend, typing, S, keymask):
 
     def one(t):
         s, vs = make_solver(typing)
-        s.ensure(table_expr(vs, S))
+        post(s, vs, S)
         for v, k in zip(vs, keymask):
             if k:
                 s.add_answer_key(v)
